@@ -194,11 +194,12 @@ func (r *Run) Finish() int {
 	if err := os.WriteFile(filepath.Join(dir, r.Prop+".json"), append(b, '\n'), 0o644); err != nil {
 		r.HarnessError(err.Error())
 	}
+	// a violation that was found stands, whatever else went wrong in the same run
 	switch {
-	case len(r.harness) > 0:
-		return 2
 	case r.unlisted > 0:
 		return 1
+	case len(r.harness) > 0:
+		return 2
 	default:
 		return 0
 	}
